@@ -514,28 +514,28 @@ def notifier_snapshot(ctx, res):
     loops = [x for x in fn_ast.walk() if x.kind in ("ForStmt", "WhileStmt")
              and any(c.kind == "CallExpr" and _callee(c) == "PyObject_Call"
                      for c in x.walk())]
-    if len(loops) != 1:
+    if not loops:
         raise AnalysisError("call_notifiers: notification loop not found")
-    loop = loops[0]
-    call_line = min(c.line for c in loop.walk() if c.kind == "CallExpr"
-                    and _callee(c) == "PyObject_Call" and c.line)
-    for x in loop.walk():
-        if x.kind == "ContinueStmt":
-            res.violation("call_notifiers:entry-skipped", facts.loc(x),
-                          "the notification loop can `continue` past an "
-                          "entry of the snapshot: a notifier that was "
-                          "registered when the change happened is not told "
-                          "about it")
-        if x.kind == "IfStmt" and x.line and x.line < call_line \
-                and any(y.kind in ("BreakStmt", "ContinueStmt", "GotoStmt",
-                                   "ReturnStmt") for y in x.walk()):
-            t = _cnorm(x.ch[0])
-            ok_gate = str(veto) in t and "flags" in t
-            res.oblige(ok_gate, "call_notifiers:gate-before-call",
-                       facts.loc(x),
-                       f"the loop leaves or skips before calling the entry "
-                       f"under `{t[:80]}`; the only documented gate is the "
-                       f"veto flag of a HasTraits new value")
+    for loop in loops:
+      call_line = min(c.line for c in loop.walk() if c.kind == "CallExpr"
+                      and _callee(c) == "PyObject_Call" and c.line)
+      for x in loop.walk():
+          if x.kind == "ContinueStmt":
+              res.violation("call_notifiers:entry-skipped", facts.loc(x),
+                            "the notification loop can `continue` past an "
+                            "entry of the snapshot: a notifier that was "
+                            "registered when the change happened is not told "
+                            "about it")
+          if x.kind == "IfStmt" and x.line and x.line < call_line \
+                  and any(y.kind in ("BreakStmt", "ContinueStmt", "GotoStmt",
+                                     "ReturnStmt") for y in x.walk()):
+              t = _cnorm(x.ch[0])
+              ok_gate = str(veto) in t and "flags" in t
+              res.oblige(ok_gate, "call_notifiers:gate-before-call",
+                         facts.loc(x),
+                         f"the loop leaves or skips before calling the entry "
+                         f"under `{t[:80]}`; the only documented gate is the "
+                         f"veto flag of a HasTraits new value")
     res.instance("call_notifiers", facts.loc(facts.func("call_notifiers")),
                  calling_paths=n)
     if n == 0:
